@@ -9,7 +9,8 @@
 // libstdc++'s std::complex * and / are run as a second opinion on the rule table (a disagreement is a
 // harness error, not a violation).  See DESIGN.md, subsection C10, and NOTES.md.
 //
-// Build: -DC10_T=float|double and one of -DC10_PART_ADDSUB / _MUL / _DIV / _MISC.
+// Build: -DC10_T=float|double and one of -DC10_PART_ADDSUB / _MUL / _DIV / _MISC / _MIXED / _SCALAR (the latter with
+// -DC10_SGROUP=0..2: which third of the scalar types this binary instantiates).
 #include "c10_variants.hpp"
 #include "report.hpp"
 
@@ -78,6 +79,21 @@ template <class T> static std::string hexs(T x)
     return b;
 }
 template <class T> static std::string fmtc(T re, T im) { return "(" + fmt(re) + ", " + fmt(im) + ")"; }
+typedef long double ld;
+static std::string fmtl(ld x)
+{
+    char b[96];
+    if (x != x) return "nan";
+    std::snprintf(b, sizeof b, "%.21Lg", x);
+    return b;
+}
+static std::string hexl(ld x)
+{
+    char b[96];
+    if (x != x) return "nan";
+    std::snprintf(b, sizeof b, "%La", x);
+    return b;
+}
 
 // ------------------------------------------------------------------------------------------------------
 // classification used by the statement: infinity := some part infinite (even if the other is NaN),
@@ -125,6 +141,8 @@ struct Variant
     bool eff;              // effective ieee_compliant of the operation
     int arity;             // 4: all of a,b,c,d matter; 3: a,b,c; 2: a,b
     bool int_scalar;
+    int stype;             // part SCALAR: index of the scalar's type in the scalar type table (-1: the scalar has type T or int and comes from V)
+    std::string sname;     // part SCALAR: token of the scalar's type
     bool compound;
     bool alias;            // aliasing form: the operands are deliberately the same object / storage
     int k1;                // closure kind of the first operand
@@ -169,7 +187,7 @@ struct Registry
     Variant<T> blank()
     {
         Variant<T> x;
-        x.cls = C_ARITH; x.op = -1; x.form = F_CC; x.eff = false; x.arity = 4; x.int_scalar = false; x.compound = false; x.alias = false;
+        x.cls = C_ARITH; x.op = -1; x.form = F_CC; x.eff = false; x.arity = 4; x.int_scalar = false; x.stype = -1; x.compound = false; x.alias = false;
         x.k1 = c10::KV; x.fn = nullptr; x.ref = nullptr; x.group = x.base = x.dgroup = -1;
         return x;
     }
@@ -189,6 +207,22 @@ struct Registry
         x.op = opidx(op); x.form = form; x.eff = b1; x.arity = 3; x.compound = compound; x.int_scalar = int_scalar; x.k1 = k1; x.fn = fn;
         add(x, std::string(op) + ":" + sub + (int_scalar ? "-int" : "") + ":" + (b1 ? "1" : "0"),
             std::string(op) + ":" + form_name(form) + ":" + (x.eff ? "ieee" : "naive"));
+    }
+    // part SCALAR: the scalar has the arithmetic type number `stype` (token `sname`); its values come from that type's own alphabet
+    void arith1s(const char* op, const char* sub, int form, bool compound, int stype, const char* sname, int k1, bool b1, void (*fn)(IO<T>&))
+    {
+        Variant<T> x = blank();
+        x.name = std::string(op) + ":" + sub + "." + sname + ":" + kb(k1, b1);
+        x.op = opidx(op); x.form = form; x.eff = b1; x.arity = 3; x.compound = compound; x.stype = stype; x.sname = sname; x.k1 = k1; x.fn = fn;
+        add(x, std::string(op) + ":" + sub + "." + sname + ":" + (b1 ? "1" : "0"),
+            std::string(op) + ":" + form_name(form) + "." + sname + ":" + (x.eff ? "ieee" : "naive"));
+    }
+    void asgs_s(int stype, const char* sname, int k1, bool b1, void (*fn)(IO<T>&))
+    {
+        Variant<T> x = blank();
+        x.cls = C_ASGS; x.fname = std::string("assign-scalar.") + sname; x.arity = 3; x.stype = stype; x.sname = sname; x.k1 = k1; x.fn = fn;
+        x.name = x.fname + ":" + kb(k1, b1);
+        add(x, x.fname + ":" + (b1 ? "1" : "0"), x.fname);
     }
     // aliasing forms; group = (operation, flags[, aliased part]); the first member of a group is the binary operator on copies
     void alias(const char* op, const std::string& sub, int form, bool b1, bool b2, int k1, bool is_base, void (*fn)(IO<T>&))
@@ -251,6 +285,18 @@ static const char* part_name = "div";
 #define C10_IF_div(x)
 #define C10_MISC(x)
 static const char* part_name = "mixed";
+#elif defined(C10_PART_SCALAR)
+#define C10_IF_add(x)
+#define C10_IF_sub(x)
+#define C10_IF_mul(x)
+#define C10_IF_div(x)
+#define C10_MISC(x)
+#ifndef C10_SGROUP
+#define C10_SGROUP 0
+#endif
+#define C10_STR2(x) #x
+#define C10_STR(x) C10_STR2(x)
+static const char* part_name = "scalar" C10_STR(C10_SGROUP);
 #else
 #define C10_IF_add(x)
 #define C10_IF_sub(x)
@@ -292,11 +338,95 @@ static const char* part_name = "misc";
 #define ACC(K1, B1) C10_MISC(reg.other1(C_ACC, "accessors", 4, c10::K1, B1, &c10::v_acc<T, c10::K1, B1>);)
 #define ACCSTD() C10_MISC(reg.other1(C_ACCSTD, "accessors-std", 4, c10::KV, false, &c10::v_accstd<T>);)
 
+// ---- part SCALAR: the scalar operand of the mixed real/complex forms has any standard arithmetic type ----------------
+// (token, C++ spelling); the order is the index used by check.py to split the types over the C10_SGROUP binaries (index % 3)
+#define C10_STYPES(X)                                                                                              \
+    X(bool, "bool") X(char, "char") X(schar, "signed char") X(uchar, "unsigned char") X(wchar, "wchar_t")          \
+    X(char16, "char16_t") X(char32, "char32_t") X(short, "short") X(ushort, "unsigned short") X(int, "int")        \
+    X(uint, "unsigned") X(long, "long") X(ulong, "unsigned long") X(llong, "long long")                            \
+    X(ullong, "unsigned long long") X(float, "float") X(double, "double") X(ldouble, "long double")
+
+// the scalar alphabet of one type, as exact values (every arithmetic type embeds exactly in x87 long double)
+template <class S>
+static std::vector<ld> scalar_alphabet(bool thorough)
+{
+    typedef std::numeric_limits<S> L;
+    std::vector<ld> c;
+    if (L::is_integer)
+    {
+        const ld mx = ld(L::max()), mn = ld(L::min());
+        const ld hi = std::floor(mx / 2) + 1;          // the top bit of an unsigned type, the top value bit of a signed one
+        const ld q[] = {0, 1, 3, 7, hi, mx, -1, -2, mn};
+        const ld t[] = {2, 4, 5, 10, 100, 255, 256, hi - 1, hi + 1, mx - 1, -3, -7, -100, -hi, mn + 1};
+        c.assign(q, q + sizeof q / sizeof q[0]);
+        if (thorough) c.insert(c.end(), t, t + sizeof t / sizeof t[0]);
+        std::vector<ld> r;
+        for (ld v : c)
+            if (v >= mn && v <= mx && std::find(r.begin(), r.end(), v) == r.end()) r.push_back(v);
+        return r;
+    }
+    const ld inf = std::numeric_limits<ld>::infinity();
+    // 0.1, 1/3 and 12345.678 are taken in the precision of S, so that they are values of S but (for a wider S) not of T
+    const ld q[] = {0, 1, -2, ld(0.5), ld(1.5), 3, -7, ld(S(0.1L)), ld(1048576), inf};
+    const ld t[] = {-ld(0), -1, ld(-0.75), ld(S(1) / S(3)), -(ld(1) + ld(L::epsilon())), ld(S(12345.678L)), ld(1) / 1048576, ld(1e10), ld(16777217), -inf, std::numeric_limits<ld>::quiet_NaN()};
+    c.assign(q, q + sizeof q / sizeof q[0]);
+    if (thorough) c.insert(c.end(), t, t + sizeof t / sizeof t[0]);
+    std::vector<ld> r;
+    for (ld v : c)
+    {
+        v = ld(static_cast<S>(v));      // a value of S, whatever the literal above was
+        bool dup = false;
+        for (ld w : r) if (std::memcmp(&w, &v, 10) == 0) dup = true;
+        if (!dup) r.push_back(v);
+    }
+    return r;
+}
+template <class T, class S> static T scalar_conv(ld sx) { return static_cast<T>(static_cast<S>(sx)); }
+
+template <class T>
+struct SType
+{
+    const char* tok;
+    const char* cname;
+    std::vector<ld> (*alpha)(bool);
+    T (*conv)(ld);      // the value the scalar has after conversion to T
+};
+template <class T>
+static const std::vector<SType<T> >& stypes()
+{
+    static std::vector<SType<T> > v;
+    if (v.empty())
+    {
+#define C10_X(tok, cname) { SType<T> s = {#tok, cname, &scalar_alphabet<c10::sc_##tok>, &scalar_conv<T, c10::sc_##tok>}; v.push_back(s); }
+        C10_STYPES(C10_X)
+#undef C10_X
+    }
+    return v;
+}
+template <class T> static int stype_index(const char* tok)
+{
+    const std::vector<SType<T> >& v = stypes<T>();
+    for (size_t i = 0; i < v.size(); ++i) if (std::string(v[i].tok) == tok) return int(i);
+    return -1;
+}
+#define XSRIGHT(op, K1, B1, S) reg.arith1s(#op, "sright", F_CS, false, stype_index<T>(#S), #S, c10::K1, B1, &c10::v_sright<T, c10::op_##op, c10::K1, B1, c10::sc_##S>);
+#define XSLEFT(op, K1, B1, S) reg.arith1s(#op, "sleft", F_SC, false, stype_index<T>(#S), #S, c10::K1, B1, &c10::v_sleft<T, c10::op_##op, c10::K1, B1, c10::sc_##S>);
+#define XCMPDS(op, K1, B1, S) reg.arith1s(#op, "cmpds", F_CS, true, stype_index<T>(#S), #S, c10::K1, B1, &c10::v_cmpds<T, c10::op_##op, c10::K1, B1, c10::sc_##S>);
+#define XASGS(K1, B1, S) reg.asgs_s(stype_index<T>(#S), #S, c10::K1, B1, &c10::v_asgs<T, c10::K1, B1, c10::sc_##S>);
+
 template <class T>
 static void register_all(Registry<T>& reg)
 {
     (void)reg;
+#if !defined(C10_PART_SCALAR)
 #include "c10_variants.inc"
+#elif C10_SGROUP == 0
+#include "c10_scalar_0.inc"
+#elif C10_SGROUP == 1
+#include "c10_scalar_1.inc"
+#else
+#include "c10_scalar_2.inc"
+#endif
 }
 
 static const char* acc_names[13] = {
@@ -341,8 +471,10 @@ template <class T> static bool part_ws(T x)
 
 static long long g_disagree = 0, g_libnan = 0, g_second_opinions = 0;
 
+// xa / xc: the exact value of the real part of the first / second operand when it is a scalar of another type whose value T
+// cannot hold (a and c are then that value after conversion to T; classification and the well-scaled test use the converted value)
 template <class T>
-static void make_oracle(Oracle<T>& o, T a, T b, T c, T d)
+static void make_oracle(Oracle<T>& o, T a, T b, T c, T d, const q128* xa = nullptr, const q128* xc = nullptr)
 {
     o.valid = true;
     o.p[0] = a; o.p[1] = b; o.q[0] = c; o.q[1] = d;
@@ -352,7 +484,7 @@ static void make_oracle(Oracle<T>& o, T a, T b, T c, T d)
     for (int k = 0; k < 4; ++k) { o.op[k].tol_any = o.op[k].tol_ieee = false; o.op[k].expect = E_NONE; o.op[k].rule = ""; o.op[k].er = o.op[k].ei = o.op[k].n2 = 0; }
     if (pfin && qfin)
     {
-        q128 A = a, B = b, C = c, D = d;
+        q128 A = xa ? *xa : q128(a), B = b, C = xc ? *xc : q128(c), D = d;
         o.op[0].er = A + C; o.op[0].ei = B + D;
         o.op[1].er = A - C; o.op[1].ei = B - D;
         o.op[2].er = A * C - B * D; o.op[2].ei = A * D + B * C;
@@ -425,12 +557,13 @@ static std::string g_only;     // --one: report for this variant only
 static bool g_verbose = false;
 static long long g_eval = 0, g_judged = 0, g_distinct = 0;
 static bool g_last_tol = false;   // the tolerance rule judged the last arithmetic evaluation
-static long long g_alias_judged = 0;
+static long long g_alias_judged = 0, g_scalar_eval = 0, g_scalar_judged = 0;
 static long long g_tol_checks = 0, g_rule_checks = 0, g_vs_value = 0, g_vs_std = 0;
 
 template <class T>
 static std::vector<std::string> replay_args(const Variant<T>& v, const IO<T>& io)
 {
+    if (v.stype >= 0) return {"--one", v.name, hexs(io.in[0]), hexs(io.in[1]), hexl(io.sx), "0"};     // the scalar as an exact long double
     return {"--one", v.name, hexs(io.in[0]), hexs(io.in[1]), hexs(io.in[2]), hexs(io.in[3])};
 }
 
@@ -446,6 +579,7 @@ static std::string describe(const Variant<T>& v, const IO<T>& io)
 {
     std::string s = v.name + "<" + cfg<T>::name() + "> on ";
     if (v.arity == 2) s += fmtc(io.in[0], io.in[1]);
+    else if (v.arity == 3 && v.stype >= 0) s += fmtc(io.in[0], io.in[1]) + " and " + stypes<T>()[v.stype].cname + " scalar " + fmtl(io.sx) + " (as " + cfg<T>::name() + ": " + fmt(io.in[2]) + ")";
     else if (v.arity == 3) s += fmtc(io.in[0], io.in[1]) + " and scalar " + fmt(io.in[2]);
     else s += fmtc(io.in[0], io.in[1]) + " and " + fmtc(io.in[2], io.in[3]);
     s += " -> " + fmtc(io.out[0], io.out[1]);
@@ -488,7 +622,7 @@ static bool judge_arith(const Variant<T>& v, const IO<T>& io, const Oracle<T>& o
     g_last_tol = false;
     // strings are only built when something is wrong
     auto fam = [&]() {
-        return std::string("C10/") + op_names[v.op] + (v.eff ? ".ieee<" : ".naive<") + cfg<T>::name() + ">/" + form_name(v.form) + "/" +
+        return std::string("C10/") + op_names[v.op] + (v.eff ? ".ieee<" : ".naive<") + cfg<T>::name() + ">/" + form_name(v.form) + (v.stype >= 0 ? "." + v.sname : std::string()) + "/" +
                zclass_name(o.p[0], o.p[1]) + op_chars[v.op] + zclass_name(o.q[0], o.q[1]) + "/";
     };
     auto what = [&]() {
@@ -538,18 +672,24 @@ struct PairRunner
     std::vector<char> dseen;
     Oracle<T> orc[F_NFORMS];
     long long samples_ieee, samples_tol;
+    // part SCALAR: in[2] is the scalar after conversion to T, sx its exact value, sx_exact := the conversion changed nothing
+    bool scalar_mode;
+    ld sx;
+    bool sx_exact;
 
-    explicit PairRunner(Registry<T>& r) : reg(r), bout(2 * r.groups.size()), bvalid(r.groups.size()), dseen(r.dgroups.size()), samples_ieee(0), samples_tol(0) {}
+    explicit PairRunner(Registry<T>& r) : reg(r), bout(2 * r.groups.size()), bvalid(r.groups.size()), dseen(r.dgroups.size()), samples_ieee(0), samples_tol(0), scalar_mode(false), sx(0), sx_exact(true) {}
 
-    // force: ignore the arity conventions (replay of one case)
-    void run(const T in[4], bool lead3, bool lead2, bool force)
+    // force: ignore the arity conventions (replay of one case); subset: run only these variants (indices into reg.v)
+    void run(const T in[4], bool lead3, bool lead2, bool force, const std::vector<int>* subset = nullptr)
     {
         std::fill(bvalid.begin(), bvalid.end(), 0);
         std::fill(dseen.begin(), dseen.end(), 0);
         for (int f = 0; f < F_NFORMS; ++f) orc[f].valid = false;
         const T a = in[0], b = in[1], c = in[2], d = in[3];
-        for (size_t vi = 0; vi < reg.v.size(); ++vi)
+        const size_t nrun = subset ? subset->size() : reg.v.size();
+        for (size_t si = 0; si < nrun; ++si)
         {
+            const size_t vi = subset ? size_t((*subset)[si]) : si;
             const Variant<T>& v = reg.v[vi];
             if (!force)
             {
@@ -564,8 +704,10 @@ struct PairRunner
             for (int i = 0; i < 4; ++i) { io.in[i] = in[i]; io.post[i] = io.stor[i] = T(0); }
             io.out[0] = io.out[1] = T(0);
             io.flags = 0;
+            io.sx = scalar_mode ? sx : ld(in[2]);
             v.fn(io);
             ++g_eval;
+            if (scalar_mode) ++g_scalar_eval;
             if (vf::take_asan())
                 report(v, io, "C10/" + v.name + "<" + cfg<T>::name() + ">/memory/asan-report", describe(v, io) + ": AddressSanitizer reported an error during this operation (see stderr)");
             bool judged = false, nontrivial = false;
@@ -576,12 +718,18 @@ struct PairRunner
                 Oracle<T>& o = orc[v.form];
                 if (!o.valid)
                 {
+                    q128 xs = scalar_mode && sx == sx && !is_inf(sx) ? q128(sx) : q128(c);
                     if (v.form == F_CC) make_oracle<T>(o, a, b, c, d);
+                    else if (scalar_mode && v.form == F_CS) make_oracle<T>(o, a, b, c, T(0), nullptr, &xs);
+                    else if (scalar_mode && v.form == F_SC) make_oracle<T>(o, c, T(0), a, b, &xs, nullptr);
                     else if (v.form == F_CS) make_oracle<T>(o, a, b, c, T(0));
                     else if (v.form == F_AA) make_oracle<T>(o, a, b, a, b);
                     else if (v.form == F_ASR) make_oracle<T>(o, a, b, a, T(0));
                     else if (v.form == F_ASI) make_oracle<T>(o, a, b, b, T(0));
                     else make_oracle<T>(o, c, T(0), a, b);
+                    // a scalar that T cannot hold exactly: the conversion the library has to perform somewhere is a rounding the
+                    // property allows, and cancellation in + and - can magnify it without bound; * and / keep it within the tolerance
+                    if (scalar_mode && !sx_exact) o.op[0].tol_any = o.op[1].tol_any = false;
                 }
                 judged = judge_arith<T>(v, io, o);
                 nontrivial = o.pc != Z_ZERO && o.qc != Z_ZERO;
@@ -697,6 +845,7 @@ struct PairRunner
                 ++g_judged;
                 if (nontrivial && !dseen[v.dgroup]) { dseen[v.dgroup] = 1; ++g_distinct; }
                 if (v.alias) ++g_alias_judged;
+                if (v.stype >= 0) ++g_scalar_judged;
             }
             if (g_verbose && (g_only.empty() || g_only == v.name))
                 std::printf("%s%s\n", describe(v, io).c_str(), judged ? "" : "  (not judged by a value rule)");
@@ -773,8 +922,81 @@ static int run_all(int argc, char** argv)
         if (!found) { std::printf("no variant %s in part %s\n", g_only.c_str(), part_name); return 3; }
         T in[4];
         for (int k = 0; k < 4; ++k) in[k] = T(std::strtod(one[k + 1], nullptr));
+#if defined(C10_PART_SCALAR)
+        {
+            // the third number is the scalar as an exact long double; only the variants of that scalar type run
+            int st = -1;
+            for (auto& v : reg.v) if (v.name == g_only) st = v.stype;
+            std::vector<int> subset;
+            for (size_t i = 0; i < reg.v.size(); ++i) if (reg.v[i].stype == st) subset.push_back(int(i));
+            pr.scalar_mode = true;
+            pr.sx = std::strtold(one[3], nullptr);
+            in[2] = stypes<T>()[st].conv(pr.sx);
+            in[3] = T(0);
+            pr.sx_exact = pr.sx != pr.sx || ld(in[2]) == pr.sx;
+            pr.run(in, true, true, true, &subset);
+        }
+#else
         pr.run(in, true, true, true);
+#endif
     }
+#if defined(C10_PART_SCALAR)
+    else
+    {
+        // (a, b) in V^2 x every scalar type of this binary x every value of that type's alphabet
+        std::vector<T> V = alphabet<T>(thorough);
+        const int n = int(V.size());
+        const std::vector<SType<T> >& ST = stypes<T>();
+        std::vector<std::vector<int> > subset(ST.size());
+        for (size_t i = 0; i < reg.v.size(); ++i) subset[reg.v[i].stype].push_back(int(i));
+        // per type: the usable scalars (a finite scalar whose conversion to T overflows is left out: T cannot take part in that operation)
+        std::vector<std::vector<ld> > A(ST.size());
+        long long nsc = 0, ninexact = 0, ntypes = 0;
+        for (size_t t = 0; t < ST.size(); ++t)
+        {
+            if (subset[t].empty()) continue;
+            ++ntypes;
+            for (ld s : ST[t].alpha(thorough))
+            {
+                T c = ST[t].conv(s);
+                if (s == s && !is_inf(s) && !is_fin(c)) continue;
+                A[t].push_back(s);
+                ++nsc;
+                if (s == s && ld(c) != s) ++ninexact;
+            }
+        }
+        pr.scalar_mode = true;
+        bool stopped = false;
+        for (int ia = 0; ia < n && !stopped; ++ia)
+            for (int ib = 0; ib < n && !stopped; ++ib)
+            {
+                if ((ia * n + ib) % nshard != shard) continue;
+                if (deadline && (long long)std::time(nullptr) > deadline)
+                {
+                    vf::cap(std::string("deadline: ") + cfg<T>::name() + "/" + part_name + " shard " + vf::str(shard) + "/" + vf::str(nshard) + " stopped before a-index " +
+                            vf::str(ia) + ", b-index " + vf::str(ib) + " of " + vf::str(n));
+                    stopped = true;
+                    break;
+                }
+                for (size_t t = 0; t < ST.size(); ++t)
+                    for (ld s : A[t])
+                    {
+                        T in[4] = {V[ia], V[ib], ST[t].conv(s), T(0)};
+                        pr.sx = s;
+                        pr.sx_exact = s != s || ld(in[2]) == s;
+                        pr.run(in, true, true, false, &subset[t]);
+                    }
+            }
+        vf::smax("alphabet_size", n);
+        vf::stat(std::string("variants_") + cfg<T>::name() + "_" + part_name, shard == 0 ? (long long)reg.v.size() : 0);
+        if (shard == 0)
+        {
+            vf::stat(std::string("scalar_types_") + cfg<T>::name(), ntypes);
+            vf::stat(std::string("scalar_values_") + cfg<T>::name(), nsc);
+            vf::stat(std::string("scalar_values_not_exact_in_") + cfg<T>::name(), ninexact);
+        }
+    }
+#else
     else
     {
         std::vector<T> V = alphabet<T>(thorough);
@@ -803,7 +1025,10 @@ static int run_all(int argc, char** argv)
         vf::smax("alphabet_size", n);
         vf::stat(std::string("variants_") + cfg<T>::name() + "_" + part_name, shard == 0 ? (long long)reg.v.size() : 0);
     }
+#endif
     vf::stat("evaluations", g_eval);
+    vf::stat("scalar_type_evaluations", g_scalar_eval);
+    vf::stat("scalar_type_evaluations_judged", g_scalar_judged);
     vf::stat("judged_evaluations", g_judged);
     vf::stat("distinct_nontrivial", g_distinct);
     vf::stat("tolerance_checks", g_tol_checks);
@@ -822,7 +1047,6 @@ static int run_all(int argc, char** argv)
 // mixed value types (part MIXED): == / != between xcomplex over float, double, int, long double, and binary
 // arithmetic between different value types where it compiles (nowhere on the pinned tree)
 #if defined(C10_PART_MIXED)
-typedef long double ld;
 template <class T> struct tyname;
 template <> struct tyname<float> { static const char* n() { return "float"; } };
 template <> struct tyname<double> { static const char* n() { return "double"; } };
@@ -841,21 +1065,6 @@ template <class T> static bool representable(ld v)
 // usable as a part of an operand of type T1 that meets an operand of type T2: exact in T1 and in the type the built-in
 // comparison converts both sides to (so that "comparing both parts" has one meaning, e.g. int 2^24+1 never meets a float)
 template <class T1, class T2> static bool usable(ld v) { return representable<T1>(v) && representable<typename std::common_type<T1, T2>::type>(v); }
-
-static std::string fmtl(ld x)
-{
-    char b[96];
-    if (x != x) return "nan";
-    std::snprintf(b, sizeof b, "%.21Lg", x);
-    return b;
-}
-static std::string hexl(ld x)
-{
-    char b[96];
-    if (x != x) return "nan";
-    std::snprintf(b, sizeof b, "%La", x);
-    return b;
-}
 
 struct MVariant
 {
